@@ -9,6 +9,10 @@ CHECK = dict(
          "x per-host fault word over {ok, 500, 502, 504, 408, 429, 429+Retry-After, 503, reset, reset-after, body cut at offset, 404, 416, 401 challenge with changing realm, 403, 400} "
          "of length 0..limit+3 plus a 'for ever' tail x class-targeted faults x upload server behaviours (Location styles 0-4, min chunk, partial acceptance answered 202 or 416+Location+Range, "
          "servers that never accept more, refused monolithic PUT, early 201, 5xx for ever on PATCH/PUT/status). "
+         "Configuration dimensions drawn per case: host settings of 'regctl registry set' (pathPrefix on mirrors, apiOpts disableHead, reqConcurrent 1/3/8/100, reqPerSec, repoAuth, blobChunk/blobMax, "
+         "Name != Hostname incl. docker.io, a mirror listed twice, 12-15 mirrors), client built without retry/delay options (what every CLI does), delayMax below delayInit / unset, limit 7, Retry-After on 5xx and as HTTP-date, "
+         "context state (cancelled before the call, cancelled while the k-th request is in flight, deadline), library options (reg.WithCache, WithBlobLimit, sha512 digests, WithManifestPlatform, WithManifestRequireDigest, "
+         "referrers by tag / by artifactType, list limit/last). "
          "Non-trivial = at least one injected fault was delivered, or >= 2 hosts configured; distinct by (request list / operation + parameters, per-host words, class faults, limit).",
     jobs=[REPLAY,
           rapid("prop", "TestVerifProp", 8000, 240000, sq=16, st=16),
